@@ -205,6 +205,9 @@ func init() {
 			pairs := a[0].(PtrV).R.Get().(Opaque).Obj.([]*Str)
 			return in.replacerReplace(pairs, a[1].(*Str)), true
 		},
+		"crypto/x509.NewCertPool": func(in *Interp, fr *frame, a []Value) (Value, bool) {
+			return PtrV{in.newCell(Opaque{Kind: "certpool", Obj: &[]string{}})}, true
+		},
 		"io.ReadAll": func(in *Interp, _ *frame, a []Value) (Value, bool) {
 			r := a[0].(Iface)
 			if p, ok := r.V.(PtrV); ok && p.R != nil {
